@@ -114,7 +114,8 @@ def classes (isParse : Bool) (a b : Str) : List String :=
     ((fragOf pa == [] && pb.fragment.isNone) || (fragOf pa != [] && emptyRef && fragOf pb == []))
   let c13 := !isParse && (match rfcTargetInput pa pb with | some full => dotdotThenEmpty full | none => false)
   let c15 := !isParse && pa.authority.isSome && pa.path == [] && relRef && pb.path != [] && !startsWith [cSlash] pb.path &&
-    (let t := removeDotSegments (cSlash :: pb.path); t == [cSlash] || startsWith [cSlash, cSlash] t)
+    (let t := removeDotSegments (cSlash :: pb.path); t == [cSlash] || startsWith [cSlash, cSlash] t ||
+      startsWith [0x25, 0x32, 0x66] pb.path || startsWith [0x25, 0x32, 0x46] pb.path)
   let c14 := !isParse && pb.scheme.isSome && pb.authority.isNone && !startsWith [cSlash] pb.path && hasDotSegment pb.path
   (if c1 then ["scheme-has-uppercase"] else []) ++
   (if c2 then ["host-non-ascii"] else []) ++
